@@ -439,8 +439,12 @@ impl SuffixArrayBuilder {
         let lms_suffixes = self.find_lms_suffixes(&is_lms);
 
         if lms_suffixes.is_empty() {
-            // All suffixes are L-type (monotonically decreasing string)
-            return Ok((0..n).rev().collect());
+            // No LMS suffix does not mean a decreasing string: any text made of a rising
+            // run followed by a falling run ("ab", "abcba") has none either, and reversing
+            // the positions is wrong for those. Sort the suffixes directly in this case.
+            let mut sa: Vec<usize> = (0..n).collect();
+            sa.sort_by(|&a, &b| text[a..].cmp(&text[b..]));
+            return Ok(sa);
         }
 
         // Step 3: Sort LMS suffixes
@@ -828,7 +832,8 @@ impl SuffixArrayBuilder {
         }
 
         if text.len() == 2 {
-            return Ok(if text[0] <= text[1] { vec![0, 1] } else { vec![1, 0] });
+            // For two equal bytes the shorter suffix (position 1) is the smaller one
+            return Ok(if text[0] < text[1] { vec![0, 1] } else { vec![1, 0] });
         }
 
         // For now, use a simple sorting approach since the full DC3 is complex
